@@ -70,16 +70,20 @@ structure Enc where
   fiRev : List Seg := []       -- A_FILE_INFO, newest first
   names : List (Nat × String) := []   -- file id -> name (add_program_file)
   psize : Nat := 0             -- program_size as stored (unsigned short)
+  initLine : Int := 0          -- init_line_being_generated
+  initRev : List (Int × Int) := []    -- A_INIT_LINES (line, offset in A_INITIALIZER), newest first
 deriving Repr
 
 def Enc.li (st : Enc) : List Run := st.liRev.reverse
 def Enc.fi (st : Enc) : List Seg := st.fiRev.reverse
 
 /-- `switch_to_line (line)` called when the code generator is at address `cur` of block `block`.
-    `if (current_block != A_PROGRAM) return;` — code of other blocks (the variable initialiser) gets no runs and
-    does not even update `line_being_generated`. -/
+    Code of the variable initialiser block is moved to the end of the program later, so for `A_INITIALIZER` only the
+    start of each new line is noted (`A_INIT_LINES`); other blocks are ignored (`if (current_block != A_PROGRAM) return;`). -/
 def switchToLine (st : Enc) (line : Int) (cur : Int) (block : Nat) : Enc :=
-  if block ≠ aProgram then st else
+  if block = aInitializer then
+    (if line ≠ st.initLine then { st with initRev := (line, cur) :: st.initRev, initLine := line } else st)
+  else if block ≠ aProgram then st else
   let sz := cur - st.lastSize
   let st1 : Enc :=
     if sz = 0 then st else
@@ -87,6 +91,11 @@ def switchToLine (st : Enc) (line : Int) (cur : Int) (block : Nat) : Enc :=
       let runs := if sz > 0 then runsOf sz.toNat s else [⟨u8 sz, s⟩]
       { st with lastSize := st.lastSize + sz, liRev := runs.reverse ++ st.liRev }
   { st1 with lineBeing := line }
+
+/-- `i_generate___INIT`: the initialiser block has been appended at `base`; visit the start of every noted line the
+    way the code generator would have (`prog_code = base + offset; switch_to_line (line)`) -/
+def placeInit (st : Enc) (base : Int) : Enc :=
+  st.initRev.reverse.foldl (fun st e => switchToLine st e.1 (base + e.2) aProgram) st
 
 /-- `save_file_info (file_id, lines)`: both values are stored through a `short` -/
 def saveFileInfo (st : Enc) (fileId : Int) (lines : Int) : Enc :=
@@ -99,6 +108,7 @@ inductive CEv where
   | fi (fileId : Int) (lines : Int)
   | addFile (fileId : Nat) (name : String)
   | init (base : Nat) (size : Nat)
+  | replay (line : Int) (addr : Int)     -- a switch_to_line call made by i_generate___INIT (already modelled by `init`)
   | fin (psize : Int)
 deriving Repr
 
@@ -107,7 +117,8 @@ def encStep (st : Enc) : CEv → Enc
   | .sw l a b => switchToLine st l a b
   | .fi f n => saveFileInfo st f n
   | .addFile f nm => { st with names := st.names ++ [(f, nm)] }
-  | .init _ _ => st
+  | .init base _ => placeInit st base
+  | .replay _ _ => st
   | .fin p => { st with psize := u16 p }
 
 def encRun (evs : List CEv) : Enc := evs.foldl encStep {}
@@ -155,6 +166,62 @@ def lexFinish (s : Lex) : Lex := s.save s.fileId (s.curLine - s.saved)
 
 /-- the absolute line a parse node created now would carry (before the `(short)` cast) -/
 def Lex.abs (s : Lex) : Int := s.base + s.curLine
+
+/-! ## file ids: `add_program_file` / `program_file_id` and the program string table -/
+
+/-- lexer counters plus what decides the file ids: the program string table (slot `i` holds a string, file id =
+    slot + 1), `current_file` and the `file` fields of the include stack (strings are abstract identities) -/
+structure LexN where
+  lex : Lex := {}
+  tbl : List Nat := []          -- A_STRINGS
+  curName : Nat := 0            -- current_file
+  nameStack : List Nat := []    -- is->file of the include stack
+deriving Repr
+
+inductive LexEvN where
+  | nl
+  | incl (name : Nat)           -- `#include` of the file whose path is the string `name`
+  | eof
+  | store (name : Nat)          -- any other `store_prog_string` of the compiler (string literals, identifiers …)
+deriving Repr, DecidableEq
+
+/-- slot of the newest table entry holding `name` (`store_prog_string` walks the hash chain from its head) -/
+def lastIdx (tbl : List Nat) (name : Nat) : Option Nat :=
+  (List.range tbl.length).reverse.find? (fun i => tbl.getD i 0 == name)
+
+/-- `store_prog_string`: (index + 1, table) -/
+def storeStr (tbl : List Nat) (name : Nat) : Nat × List Nat :=
+  match lastIdx tbl name with
+  | some i => (i + 1, tbl)
+  | none => (tbl.length + 1, tbl ++ [name])
+
+/-- `program_file_id (name, 0)`: the id `store_prog_string` gives, unless a segment of `A_FILE_INFO` already uses it
+    (`fi[i] == (unsigned short) file_id`): then `store_prog_string_again` appends an entry of its own -/
+def fileIdFor (fi : List Seg) (tbl : List Nat) (name : Nat) : Nat × List Nat :=
+  let r := storeStr tbl name
+  if fi.any (fun s => s.file == u16 r.1) then (r.2.length + 1, r.2 ++ [name]) else r
+
+def lexStepN (s : LexN) : LexEvN → LexN
+  | .nl => { s with lex := lexStep s.lex .nl }
+  | .store name => { s with tbl := (storeStr s.tbl name).2 }
+  | .incl name =>
+    -- handle_include: save_file_info of the parent FIRST, then add_program_file
+    let l := s.lex.curLine + 1
+    let c := l - 1
+    let s1 := s.lex.save s.lex.fileId (c - s.lex.saved)
+    let r := fileIdFor s1.fi s.tbl name
+    { lex := { s1 with stack := (l, s.lex.fileId) :: s.lex.stack, base := s.lex.base + c, saved := 0, curLine := 1,
+                       fileId := r.1 },
+      tbl := r.2, curName := name, nameStack := s.curName :: s.nameStack }
+  | .eof =>
+    match s.nameStack with
+    | [] => { s with lex := lexStep s.lex .eof }
+    | n :: rest => { s with lex := lexStep s.lex .eof, curName := n, nameStack := rest }
+
+def lexRunN (s : LexN) (evs : List LexEvN) : LexN := evs.foldl lexStepN s
+
+/-- start of a compilation: `add_program_file (name, 1)` on the empty table gives the main file id 1 -/
+def initN (main : Nat) : LexN := { lex := { fileId := 1 }, tbl := [main], curName := main }
 
 /-! ## decoder -/
 
